@@ -920,6 +920,23 @@ class RvEngine(Engine):
         t = line.split()
         return t[:3], split_ops(t[3:])
 
+    def join(self, header, ops):
+        """used by the shrinkers: a candidate in which a blocking call would park is rewritten to its
+        try_ form (the real call would sit in the harness watchdog), so shrinking never waits"""
+        try:
+            sim = Sim(header[0], header[1] == "a", header[2])
+        except Exception:
+            return Engine.join(self, header, ops)
+        out = []
+        for op in ops:
+            if op[0] in ("s", "r"):
+                probe = copy.deepcopy(sim)
+                if probe.step(op) == "block":
+                    op = (["ts"] if op[0] == "s" else ["tr"]) + list(op[1:])
+            sim.step(op)
+            out.append(op)
+        return Engine.join(self, header, out)
+
     def nontrivial(self, line, impl_out):
         return len(self.split(line)[1]) >= 3
 
